@@ -131,13 +131,16 @@ def _execute(line: str):
             res.append(r)
             return r
         out = guarded(sh, wire)
-        extra["left_after"] = wire(x)
-        # the result is a new object: changing it in place must not change what the same shift gives next time
+        # the result is a new object: changing it in place must change neither the operand nor what the same shift gives
+        # next time
         if res and isinstance(res[0], BitArray):
             try:
                 res[0].invert(); res[0].append("0b1")
             except Exception:                               # noqa: BLE001
                 pass
+        extra["left_after"] = wire(x)
+        if res and res[0] is x:
+            extra["aliased_result"] = cls in MUTABLE
         extra["again"] = guarded(lambda: (mk(cls, a) << n) if op == "shl" else (mk(cls, a) >> n), wire)
     elif op in ("ishl", "ishr"):
         n = int(b)
